@@ -936,6 +936,11 @@ def comp(kind, f, it, cond):
         if kind in ('list', 'gen'):
             return SymIter(src.dom0, lambda k: f(src.elem(k)), c2, src.order)
         if kind == 'set':
+            g0 = z3.Const('__g', K)
+            probe = f(src.elem(g0))
+            if not (isinstance(probe, SymKey) and z3.eq(probe.t, g0)):
+                # a set of COMPUTED values removes duplicates by value: not a per-key collection any more
+                raise Unmodelled('set comprehension over computed values')
             return SymIter(src.dom0, lambda k: f(src.elem(k)), c2, 'arb').__vc_set__()
         if kind == 'dict':
             g = z3.Const('__g', K)
